@@ -87,7 +87,7 @@ def native_truth(family, bounds, horizon, extra=(), gen_args=(), nshards=None):
     return res, hsh
 
 
-def run_shards(sub, args, nshards=None, timeout=7200):
+def run_shards(sub, args, nshards=None, timeout=7200, max_deaths=6):
     """Runs `vp <sub> <args> -shard i/n -out file` in parallel; returns (records, deaths).
     deaths: list of (last BEGIN line, stderr tail) for workers that died."""
     n = nshards or NPROC
@@ -117,6 +117,9 @@ def run_shards(sub, args, nshards=None, timeout=7200):
                     break
                 deaths.append((last[-1], err[-3000:]))
                 frm = int(last[-1].split()[1])
+                if len(deaths) >= max_deaths:
+                    deaths.append(('ABORTED shard %d after %d worker deaths (remaining cases not run)' % (i, len(deaths)), ''))
+                    break
             return recs, deaths
         with cf.ThreadPoolExecutor(n) as ex:
             outs = list(ex.map(one, range(n)))
